@@ -316,7 +316,14 @@ func (t *tm33Router) build(f *tmFam, d *tmHdr) (*tmBuilt, bool) {
 			bid = tmtypes.BlockID{Hash: hash, PartsHeader: tmtypes.PartSetHeader{Total: 1, Hash: parts[:]}}
 		case 'o':
 			bid = tmtypes.BlockID{Hash: tmArb("other-block"), PartsHeader: tmtypes.PartSetHeader{Total: 1, Hash: parts[:]}}
+		case 't':
+			tr := tmReadTracked(f.db)
+			if !tr.ok {
+				return nil, false
+			}
+			bid = tmtypes.BlockID{Hash: tr.block, PartsHeader: tmtypes.PartSetHeader{Total: 1, Hash: parts[:]}}
 		}
+		b.commitForHeader = bytes.Equal(bid.Hash, hash) && d.cheight == d.height
 		commit = &tmtypes.Commit{Height: d.cheight, Round: int(d.round), BlockID: bid}
 		for i, s := range d.slots {
 			ts := tmTime(d.cheight, i+1)
